@@ -72,6 +72,12 @@ fn referrer(name: &str, imports: &[String], written: &str, extra: Option<&str>, 
     }
     let mut d = Document::new("ref.pkg", it);
     d.imports = imports.iter().map(|i| Import::new(i)).collect();
+    // size dimension: half of the cases carry 12 more (unrelated) imports
+    if (position + ctx) % 2 == 1 {
+        for k in 0..12 {
+            d.imports.insert(k % (d.imports.len() + 1), Import::new(&format!("pad.k{}.Pad{k}", k % 3)));
+        }
+    }
     d
 }
 
